@@ -325,11 +325,16 @@ def _main(check, ctx, args, t0):
 
     # ---- determinism
     nondet = [r for r in results if r.get("nondet")]
-    if nondet:
+    if nondet and not any(r.get("viol") for r in results):
         raise HarnessError("same seed twice gave different digests for run indices %s" % [r["i"] for r in nondet][:10])
+    if nondet:
+        # the system under test carries state from one call to the next (each run is executed twice in a row by the
+        # self-test); the runs below report what that breaks
+        print("note: %d runs gave a different digest when executed a second time in the same process "
+              "(state leaking between calls of the code under test)" % len(nondet))
     n_self = sum(1 for r in results if r.get("selftest"))
     fresh_checked = 0
-    if not args.no_selftest and tier.get("fresh_selftest", 8):
+    if not args.no_selftest and tier.get("fresh_selftest", 8) and not nondet:
         k = min(tier.get("fresh_selftest", 8), nruns)
         env = dict(os.environ)
         env["PYTHONHASHSEED"] = "12345"
